@@ -8,6 +8,9 @@ use std::sync::{Arc, Mutex};
 pub type Ranges = Vec<(u32, u32)>;
 
 /// Exhaustive enumeration of all Unicode scalar values through the real match function.
+/// (class id, code point) pairs on which the match function of a class panicked
+pub static CLASS_PANICS: std::sync::Mutex<Vec<(usize, u32)>> = std::sync::Mutex::new(Vec::new());
+
 pub fn class_table(scanner: &Scanner, id: usize) -> Ranges {
     let mut out: Ranges = Vec::new();
     let mut cur: Option<(u32, u32)> = None;
@@ -22,7 +25,14 @@ pub fn class_table(scanner: &Scanner, id: usize) -> Ranges {
             continue;
         }
         let c = char::from_u32(cp).unwrap();
-        if scanner.verif_class_matches(id, c) {
+        let member = match std::panic::catch_unwind(std::panic::AssertUnwindSafe(|| scanner.verif_class_matches(id, c))) {
+            Ok(b) => b,
+            Err(_) => {
+                CLASS_PANICS.lock().unwrap().push((id, cp));
+                false
+            }
+        };
+        if member {
             cur = match cur {
                 Some((lo, _)) => Some((lo, cp)),
                 None => Some((cp, cp)),
